@@ -67,6 +67,17 @@ Definition dist_ids_known (lws : list labware) (o : op) : Prop :=
   | _ => True
   end.
 
+(** weaker: the EVO numbering accepts the destination ids of a [distribute], or the Fluent numbering
+    refuses them too (the remaining case, Fluent accepts what EVO refuses, is a genuine discrepancy) *)
+Definition dist_ids_agree (lws : list labware) (o : op) : Prop :=
+  match o with
+  | ODistribute _ kd dwells _ =>
+      forall Ld, nth_error lws kd = Some Ld ->
+      (exists ps, positions_of Evo (lw_geom Ld) (flattenF dwells) = Ok ps) \/
+      (exists e, positions_of Fluent (lw_geom Ld) (flattenF dwells) = Err e)
+  | _ => True
+  end.
+
 (** records that carry no well position *)
 Definition plain_rec (r : srec) : Prop :=
   match r with
@@ -168,6 +179,44 @@ Proof.
     destruct (positions_known g w) as (p1 & p2 & E1 & E2 & Hp); [apply Hk; left; reflexivity|].
     exists (p1 :: ps1), (p2 :: ps2). cbn [positions_of device_position].
     rewrite E1, E2, H1, H2. cbn [length]. repeat split; try congruence.
+    intro Ht. rewrite (Hp Ht), (Heq Ht). reflexivity.
+Qed.
+
+Lemma evo_position_err g s e : evo_position g s = Err e -> e = EReject.
+Proof.
+  unfold evo_position. destruct (parse_id s) as [[l n]|]; [|congruence].
+  destruct (single_letter_row g l); [destruct (column_index g n)|]; congruence.
+Qed.
+
+Lemma fluent_position_err g s e : fluent_position g s = Err e -> e = EReject.
+Proof.
+  unfold fluent_position. destruct (parse_id s) as [[l n]|]; [|congruence].
+  destruct (column_index g n); [|congruence]. destruct (is_trough g); [congruence|].
+  destruct (str_head s) as [a|]; [|congruence].
+  destruct (single_letter_row g (String a EmptyString)); congruence.
+Qed.
+
+Lemma positions_of_err d g ws e : d <> BaseDev -> positions_of d g ws = Err e -> e = EReject.
+Proof.
+  intro Hd. induction ws as [|w r IH]; cbn [positions_of]; [discriminate|].
+  destruct (device_position d g w) as [p|e1] eqn:E1.
+  - destruct (positions_of d g r) as [ps|e2]; [discriminate|]. intro H. injection H as <-. apply IH. reflexivity.
+  - intro H. injection H as <-. destruct d; cbn [device_position] in E1;
+      [eapply evo_position_err; exact E1|eapply fluent_position_err; exact E1|congruence].
+Qed.
+
+Lemma positions_of_evo_ok g ws : forall ps1, positions_of Evo g ws = Ok ps1 ->
+  exists ps2, positions_of Fluent g ws = Ok ps2 /\
+    length ps1 = length ws /\ length ps2 = length ws /\ (is_trough g = false -> ps1 = ps2).
+Proof.
+  induction ws as [|w r IH]; intros ps1 H; cbn [positions_of] in *.
+  - injection H as <-. exists []. repeat split.
+  - cbn [device_position] in *.
+    destruct (evo_position g w) as [p1|e1] eqn:E1; [|discriminate].
+    destruct (positions_of Evo g r) as [qs1|e1] eqn:E2; [|discriminate].
+    injection H as <-. destruct (IH qs1 eq_refl) as (qs2 & F2 & L1 & L2 & Heq).
+    destruct (evo_ok_fluent_ok g w p1 E1) as (p2 & F1 & Hp).
+    exists (p2 :: qs2). rewrite F1, F2. cbn [length]. repeat split; try congruence.
     intro Ht. rewrite (Hp Ht), (Heq Ht). reflexivity.
 Qed.
 
@@ -285,8 +334,14 @@ Qed.
 Lemma base_distribute_state s ks kd dwells a : w_dev (st_wl s) = BaseDev ->
   fst (distribute s ks kd dwells a) = s.
 Proof.
-  intro Hd. unfold distribute. cbv zeta. rewrite Hd, positions_of_base.
-  destruct (flattenF dwells) as [|w0 r]; cbn [map sort_Z fold_left]; repeat dmatch; reflexivity.
+  intro Hd. unfold distribute. cbv zeta.
+  destruct (nth_error (st_lw s) ks) as [Ls|]; [|reflexivity].
+  destruct (nth_error (st_lw s) kd) as [Ld|]; [|reflexivity].
+  destruct (g_vrows (lw_geom Ls)) as [v|]; [|reflexivity].
+  destruct (rvol_x (d_volume a)) as [xv|]; [|reflexivity].
+  rewrite Hd, positions_of_base.
+  destruct (flattenF dwells) as [|w0 r]; cbn [map sort_Z fold_left];
+    destruct xv as [q| | |]; try reflexivity; try (destruct (Qgtb q (w_max (st_wl s))); reflexivity).
 Qed.
 
 Lemma base_aspirate_ext s k wells vols label kw : w_dev (st_wl s) = BaseDev ->
@@ -357,10 +412,934 @@ Qed.
 
 (** the raw emitters do append position records on the base type (positions supplied by the caller) *)
 Lemma base_no_position_records_refuted :
-  exists s o, w_dev (st_wl s) = BaseDev /    ~ (exists rs, w_recs (st_wl (fst (step s o))) = (w_recs (st_wl s) ++ rs)%list /\ Forall plain_rec rs).
+  exists s o, w_dev (st_wl s) = BaseDev /\
+    ~ (exists rs, w_recs (st_wl (fst (step s o))) = (w_recs (st_wl s) ++ rs)%list /\ Forall plain_rec rs).
 Proof.
   exists {| st_lw := []; st_wl := init_wl BaseDev 950 true false |},
          (OAspWell (ad_of_kw "plate" 1 10 kw_default)).
   split; [reflexivity|]. intros (rs & E & F).
   vm_compute in E. subst rs. inversion F as [|r l Hr Hl]. exact Hr.
+Qed.
+(* ================================================================== the labware frame: names and geometries *)
+
+Definition lsig (L : labware) : string * geom := (lw_name L, lw_geom L).
+
+Lemma rem_run_indexed L items L' e : rem_run L items L' e -> e = None ->
+  forall it, In it items -> exists i, lw_index L (fst it) = Some i.
+Proof.
+  intro H. induction H as [L|L w x rest Hi|L w x rest i Hi Hx|L w v rest i Hi Hg
+                           |L w v rest i L' e Hi Hg Hr IH]; intros He it Hin; try discriminate.
+  - contradiction.
+  - destruct Hin as [<-|Hin]; [exists i; exact Hi|].
+    destruct (rem_one_frame L i v) as (_ & Fg & _).
+    rewrite <- (lw_index_geom _ _ _ Fg). apply IH; assumption.
+Qed.
+
+Lemma lw_index_known L w i : lw_index L w = Some i -> well_index (lw_geom L) w <> None.
+Proof. unfold lw_index. destruct (well_index (lw_geom L) w); [discriminate|discriminate]. Qed.
+
+Lemma remove_known L wells vols label L' : remove L wells vols label = (L', None) ->
+  forall w, In w (flattenF wells) -> well_index (lw_geom L) w <> None.
+Proof.
+  intros H w Hw. destruct (remove_accepted _ _ _ _ _ H) as (L1 & Hlen & _ & Hrun & _).
+  destruct (zip_In_l _ _ w Hlen Hw) as [x Hx].
+  destruct (rem_run_indexed _ _ _ _ Hrun eq_refl _ Hx) as [i Hi]. cbn [fst] in Hi.
+  eapply lw_index_known. exact Hi.
+Qed.
+
+Lemma add_known L wells vols label comps L' : add L wells vols label comps = (L', None) ->
+  forall w, In w (flattenF wells) -> well_index (lw_geom L) w <> None.
+Proof.
+  intros H w Hw. destruct (add_accepted _ _ _ _ _ _ H) as (items & L1 & Hmap & Hlen & _ & Hrun & _).
+  destruct (zip_In_l _ _ w Hlen Hw) as [x Hx]. rewrite <- Hmap in Hx.
+  apply in_map_iff in Hx. destruct Hx as (it & Hit & Hin).
+  destruct (add_run_indexed _ _ _ _ Hrun eq_refl it Hin) as [i Hi]. rewrite Hit in Hi. cbn [fst] in Hi.
+  eapply lw_index_known. exact Hi.
+Qed.
+
+Lemma remove_lsig L wells vols label : lsig (fst (remove L wells vols label)) = lsig L.
+Proof.
+  unfold remove. destruct (prep_wells_vols wells vols) as [wv|e0]; [|reflexivity].
+  destruct (remove_loop L wv) as [L1 [e|]] eqn:El; cbn [fst];
+    apply remove_loop_run, rem_run_frame in El; destruct El as (Fn & Fg & _);
+    unfold lsig, log; cbn [lw_name lw_geom set_hist]; rewrite Fn, Fg; reflexivity.
+Qed.
+
+Lemma add_lsig L wells vols label comps : lsig (fst (add L wells vols label comps)) = lsig L.
+Proof.
+  unfold add. destruct (prep_wells_vols wells vols) as [wv|e0]; [|reflexivity].
+  destruct (negb _); [reflexivity|].
+  match goal with |- context [add_loop L ?it] => set (items := it) end.
+  destruct (add_loop L items) as [L1 [e|]] eqn:El; cbn [fst];
+    apply add_loop_run, add_run_frame in El; destruct El as (Fn & Fg & _);
+    unfold lsig, log; cbn [lw_name lw_geom set_hist]; rewrite Fn, Fg; reflexivity.
+Qed.
+
+Lemma condense_log_lsig L n label : lsig (condense_log L n label) = lsig L.
+Proof. unfold condense_log. destruct (n <? 1); reflexivity. Qed.
+
+Lemma map_upd_same {A B} (f : A -> B) (l : list A) : forall k x y,
+  nth_error l k = Some x -> f y = f x -> map f (upd l k y) = map f l.
+Proof.
+  induction l as [|a r IH]; intros [|k] x y H E; cbn [nth_error upd map] in *; try discriminate.
+  - injection H as ->. rewrite E. reflexivity.
+  - rewrite (IH k x y H E). reflexivity.
+Qed.
+
+(* ================================================================== the relation, for a fixed frame *)
+
+Lemma Forall2_mono {A B} (R R' : A -> B -> Prop) l l' :
+  (forall a b, R a b -> R' a b) -> Forall2 R l l' -> Forall2 R' l l'.
+Proof. intros HR H. induction H as [|a b l l' Hab Hl IH]; constructor; auto. Qed.
+
+Lemma Forall2_eq {A} (l l' : list A) : Forall2 eq l l' -> l = l'.
+Proof. intro H. induction H as [|a b l l' Hab Hl IH]; [reflexivity|congruence]. Qed.
+
+Lemma Forall2_same {A} (R : A -> A -> Prop) (l : list A) : (forall a, R a a) -> Forall2 R l l.
+Proof. intro HR. induction l as [|a r IH]; constructor; auto. Qed.
+
+Lemma Forall2_last_opt {A B} (R : A -> B -> Prop) l l' : Forall2 R l l' ->
+  match last_opt l, last_opt l' with
+  | None, None => True
+  | Some a, Some b => R a b
+  | _, _ => False
+  end.
+Proof.
+  intro H. induction H as [|a b l l' Hab Hl IH]; [exact I|].
+  cbn [last_opt]. destruct Hl as [|a' b' l l' Hab' Hl]; [exact Hab|exact IH].
+Qed.
+
+Lemma rec_sim_mono (T T' : string -> bool) r1 r2 :
+  (forall n, T n = true -> T' n = true) -> rec_sim T r1 r2 -> rec_sim T' r1 r2.
+Proof.
+  intros HT H. destruct H as [r|f1 f2 H|f1 f2 H|f1 f2 H].
+  - apply RS_eq.
+  - apply RS_A. unfold ad_sim in *. intuition.
+  - apply RS_D. unfold ad_sim in *. intuition.
+  - apply RS_R. unfold r_sim in *. intuition.
+Qed.
+
+Lemma rec_sim_break T r1 r2 : rec_sim T r1 r2 -> is_break_like r1 = is_break_like r2.
+Proof. intro H. destruct H; reflexivity. Qed.
+
+Lemma adfields_eq f1 f2 :
+  ad_rack_label f1 = ad_rack_label f2 -> ad_rack_id f1 = ad_rack_id f2 ->
+  ad_rack_type f1 = ad_rack_type f2 -> ad_position f1 = ad_position f2 -> ad_tube_id f1 = ad_tube_id f2 ->
+  ad_volume f1 = ad_volume f2 -> ad_liquid_class f1 = ad_liquid_class f2 ->
+  ad_tip f1 = ad_tip f2 -> ad_forced_rack_type f1 = ad_forced_rack_type f2 -> f1 = f2.
+Proof. destruct f1, f2. cbn. intros. subst. reflexivity. Qed.
+
+(** without troughs the relation is equality *)
+Lemma rec_sim_no_trough T r1 r2 : (forall n, T n = false) -> rec_sim T r1 r2 -> r1 = r2.
+Proof.
+  intros HT H. destruct H as [r|f1 f2 H|f1 f2 H|f1 f2 H]; [reflexivity| | |].
+  - destruct H as (_ & _ & _ & _ & _ & _ & _ & _ & H). rewrite HT in H. discriminate.
+  - destruct H as (_ & _ & _ & _ & _ & _ & _ & _ & H). rewrite HT in H. discriminate.
+  - destruct H as (H1 & H2 & H3 & H4 & H5 & H6 & H7 & H8 & H9 & H10 & H11 & Hs & Hd).
+    destruct Hs as [Hs|[Hs1 Hs2]]; [rewrite HT in Hs; discriminate|].
+    destruct Hd as [Hd|(Hd1 & Hd2 & Hd3)]; [rewrite HT in Hd; discriminate|].
+    destruct f1, f2. cbn in *. subst. reflexivity.
+Qed.
+
+(* ------------------------------------------------------------------ sorting positions *)
+
+Lemma insert_Z_In x y l : In x (insert_Z y l) -> x = y \/ In x l.
+Proof.
+  induction l as [|z r IH]; cbn [insert_Z]; intro H.
+  - destruct H as [H|[]]. left. congruence.
+  - destruct (z <=? y)%Z.
+    + destruct H as [H|H]; [right; left; exact H|]. destruct (IH H) as [E|E]; [left; exact E|right; right; exact E].
+    + destruct H as [H|H]; [left; congruence|right; exact H].
+Qed.
+
+Lemma insert_Z_length y l : length (insert_Z y l) = Datatypes.S (length l).
+Proof.
+  induction l as [|z r IH]; cbn [insert_Z length]; [reflexivity|].
+  destruct (z <=? y)%Z; cbn [length]; [rewrite IH|]; reflexivity.
+Qed.
+
+Lemma sort_Z_acc_In l : forall acc x, In x (fold_left (fun a y => insert_Z y a) l acc) -> In x acc \/ In x l.
+Proof.
+  induction l as [|y r IH]; intros acc x H; cbn [fold_left] in H; [left; exact H|].
+  destruct (IH _ _ H) as [E|E]; [|right; right; exact E].
+  destruct (insert_Z_In _ _ _ E) as [E'|E']; [right; left; congruence|left; exact E'].
+Qed.
+
+Lemma sort_Z_In x l : In x (sort_Z l) -> In x l.
+Proof. intro H. destruct (sort_Z_acc_In l [] x H) as [[]|E]. exact E. Qed.
+
+Lemma sort_Z_acc_length l : forall acc,
+  length (fold_left (fun a y => insert_Z y a) l acc) = length l + length acc.
+Proof.
+  induction l as [|y r IH]; intro acc; cbn [fold_left length]; [reflexivity|].
+  rewrite IH, insert_Z_length. lia.
+Qed.
+
+Lemma sort_Z_length l : length (sort_Z l) = length l.
+Proof. unfold sort_Z. rewrite sort_Z_acc_length. cbn [length]. lia. Qed.
+
+Lemma sorted_positions_nonneg ps x : In x (sort_Z (map Z.of_nat ps)) -> (0 <= x)%Z.
+Proof. intro H. apply sort_Z_In, in_map_iff in H. destruct H as (n & <- & _). lia. Qed.
+
+Lemma last_In {A} (l : list A) d : l <> [] -> In (last l d) l.
+Proof.
+  induction l as [|a r IH]; intro H; [congruence|].
+  destruct r as [|b r']; [left; reflexivity|]. right. apply IH. discriminate.
+Qed.
+
+Definition excl_of (p0 : Z) (sorted : list Z) : list Z :=
+  filter (fun z => negb (existsb (Z.eqb z) sorted))
+         (map (fun i => (p0 + Z.of_nat i)%Z) (seq 0 (Z.to_nat (last sorted p0 - p0 + 1)))).
+
+Lemma excl_of_range p0 sorted x : In x (excl_of p0 sorted) -> (p0 <= x <= last sorted p0)%Z.
+Proof.
+  unfold excl_of. intro H. apply filter_In in H. destruct H as [H _].
+  apply in_map_iff in H. destruct H as (i & <- & Hi). apply in_seq in Hi. lia.
+Qed.
+
+Lemma check_position_nonneg z : (0 <= z)%Z -> check_position (PInt z) = Ok z.
+Proof. intro H. unfold check_position. destruct (z <? 0)%Z eqn:E; [apply Z.ltb_lt in E; lia|reflexivity]. Qed.
+
+Lemma excl_check_false ds de ex : (forall x, In x ex -> (ds <= x <= de)%Z) ->
+  existsb (fun x => negb ((ds <=? x) && (x <=? de))%Z) ex = false.
+Proof.
+  intro H. destruct (existsb _ ex) eqn:E; [|reflexivity].
+  apply existsb_exists in E. destruct E as (x & Hx & Hb). specialize (H x Hx).
+  assert (E1 : (ds <=? x)%Z = true) by (apply Z.leb_le; lia).
+  assert (E2 : (x <=? de)%Z = true) by (apply Z.leb_le; lia).
+  rewrite E1, E2 in Hb. discriminate.
+Qed.
+
+Lemma text_ok_PStr b t s : text_ok b t = Some s -> t = PStr s.
+Proof.
+  unfold text_ok. destruct t as [s'|]; [|discriminate].
+  destruct (contains_char semi s'); [discriminate|].
+  destruct (b && (32 <? String.length s')); [discriminate|]. congruence.
+Qed.
+
+Section Sim.
+Variable T : string -> bool.
+Variable S : list (string * geom).
+Hypothesis HT : forall n g, In (n, g) S -> is_trough g = true -> T n = true.
+
+Definition wl_sim (w1 w2 : wstate) : Prop :=
+  w_max w1 = w_max w2 /\ w_autosplit w1 = w_autosplit w2 /\ w_diti w1 = w_diti w2 /\
+  w_dev w1 = Evo /\ w_dev w2 = Fluent /\ Forall2 (rec_sim T) (w_recs w1) (w_recs w2).
+
+Definition ssim (s1 s2 : state) : Prop :=
+  st_lw s1 = st_lw s2 /\ map lsig (st_lw s1) = S /\ wl_sim (st_wl s1) (st_wl s2).
+
+Definition wosim (r1 r2 : wstate * option err) : Prop := wl_sim (fst r1) (fst r2) /\ snd r1 = snd r2.
+Definition osim (r1 r2 : state * option err) : Prop := ssim (fst r1) (fst r2) /\ snd r1 = snd r2.
+
+Lemma wosim_same w1 w2 e : wl_sim w1 w2 -> wosim (w1, e) (w2, e).
+Proof. intro H. split; [exact H|reflexivity]. Qed.
+
+Lemma osim_same s1 s2 e : ssim s1 s2 -> osim (s1, e) (s2, e).
+Proof. intro H. split; [exact H|reflexivity]. Qed.
+
+Lemma emit_sim w1 w2 rs1 rs2 : wl_sim w1 w2 -> Forall2 (rec_sim T) rs1 rs2 ->
+  wl_sim (emit w1 rs1) (emit w2 rs2).
+Proof.
+  intros (H1 & H2 & H3 & H4 & H5 & H6) Hr. unfold wl_sim, emit. cbn [w_recs w_max w_autosplit w_diti w_dev].
+  repeat split; try assumption. apply Forall2_app; assumption.
+Qed.
+
+Lemma emit_sim_same w1 w2 rs : wl_sim w1 w2 -> wl_sim (emit w1 rs) (emit w2 rs).
+Proof. intro H. apply emit_sim; [exact H|]. apply Forall2_same. apply RS_eq. Qed.
+
+Lemma comment_sim w1 w2 c : wl_sim w1 w2 -> wosim (comment w1 c) (comment w2 c).
+Proof.
+  intro H. unfold comment. destruct c as [s|]; [|apply wosim_same; exact H].
+  destruct (String.eqb s ""); [apply wosim_same; exact H|].
+  destruct (contains_char semi s); apply wosim_same; [exact H|]. apply emit_sim_same. exact H.
+Qed.
+
+Lemma wash_sim w1 w2 sch : wl_sim w1 w2 -> wosim (wash w1 sch) (wash w2 sch).
+Proof.
+  intro H. unfold wash. destruct H as (H1 & H2 & H3 & H') . rewrite <- H3.
+  assert (Hw : wl_sim w1 w2) by (repeat split; tauto).
+  destruct (w_diti w1); [apply wosim_same, emit_sim_same; exact Hw|].
+  destruct sch as [z| | | |]; try (apply wosim_same; exact Hw).
+  destruct ((1 <=? z) && (z <=? 4))%Z; apply wosim_same; [apply emit_sim_same|]; exact Hw.
+Qed.
+
+Lemma decontaminate_sim w1 w2 : wl_sim w1 w2 -> wosim (decontaminate w1) (decontaminate w2).
+Proof.
+  intro H. unfold decontaminate. destruct H as (H1 & H2 & H3 & H'). rewrite <- H3.
+  assert (Hw : wl_sim w1 w2) by (repeat split; tauto).
+  destruct (w_diti w1); apply wosim_same; [|apply emit_sim_same]; exact Hw.
+Qed.
+
+Lemma flush_sim w1 w2 : wl_sim w1 w2 -> wosim (flush w1) (flush w2).
+Proof. intro H. apply wosim_same, emit_sim_same. exact H. Qed.
+
+Lemma commit_sim w1 w2 : wl_sim w1 w2 -> wosim (commit w1) (commit w2).
+Proof. intro H. apply wosim_same, emit_sim_same. exact H. Qed.
+
+Lemma set_diti_sim w1 w2 i : wl_sim w1 w2 -> wosim (set_diti w1 i) (set_diti w2 i).
+Proof.
+  intro H. unfold set_diti.
+  pose proof (Forall2_last_opt _ _ _ (proj2 (proj2 (proj2 (proj2 (proj2 H)))))) as HL.
+  destruct (last_opt (w_recs w1)) as [r1|], (last_opt (w_recs w2)) as [r2|]; try contradiction.
+  - rewrite <- (rec_sim_break _ _ _ HL).
+    destruct (is_break_like r1); apply wosim_same; [apply emit_sim_same|]; exact H.
+  - apply wosim_same, emit_sim_same. exact H.
+Qed.
+
+Lemma aspirate_well_sim w1 w2 a : wl_sim w1 w2 -> wosim (aspirate_well w1 a) (aspirate_well w2 a).
+Proof.
+  intro H. unfold aspirate_well. rewrite <- (proj1 H).
+  destruct (prepare_ad a (Some (w_max w1))) as [f|e]; apply wosim_same; [apply emit_sim_same|]; exact H.
+Qed.
+
+Lemma dispense_well_sim w1 w2 a : wl_sim w1 w2 -> wosim (dispense_well w1 a) (dispense_well w2 a).
+Proof.
+  intro H. unfold dispense_well. rewrite <- (proj1 H).
+  destruct (prepare_ad a (Some (w_max w1))) as [f|e]; apply wosim_same; [apply emit_sim_same|]; exact H.
+Qed.
+
+(** the same A/D arguments with two positions: same verdict, records equal up to the position *)
+Lemma prepare_ad_positions name p1 p2 v k m :
+  match prepare_ad (ad_of_kw name p1 v k) m, prepare_ad (ad_of_kw name p2 v k) m with
+  | Ok f1, Ok f2 =>
+      ad_rack_label f1 = name /\
+      ad_rack_label f1 = ad_rack_label f2 /\ ad_rack_id f1 = ad_rack_id f2 /\
+      ad_rack_type f1 = ad_rack_type f2 /\ ad_tube_id f1 = ad_tube_id f2 /\
+      ad_volume f1 = ad_volume f2 /\ ad_liquid_class f1 = ad_liquid_class f2 /\
+      ad_tip f1 = ad_tip f2 /\ ad_forced_rack_type f1 = ad_forced_rack_type f2 /\
+      (p1 = p2 -> f1 = f2)
+  | Err e1, Err e2 => e1 = e2
+  | _, _ => False
+  end.
+Proof.
+  unfold prepare_ad, ad_of_kw.
+  cbn [x_rack_label x_position x_volume x_liquid_class x_tip x_rack_id x_tube_id x_rack_type x_forced].
+  destruct (text_ok true (PStr name)) as [label|] eqn:El; [|reflexivity].
+  assert (Hl : label = name).
+  { unfold text_ok in El. destruct (contains_char semi name); [discriminate|].
+    destruct (true && (32 <? String.length name)); [discriminate|]. congruence. }
+  unfold check_position.
+  assert (E1 : (Z.of_nat p1 <? 0)%Z = false) by (apply Z.ltb_ge; lia).
+  assert (E2 : (Z.of_nat p2 <? 0)%Z = false) by (apply Z.ltb_ge; lia).
+  rewrite E1, E2.
+  destruct (check_volume (PV (XQ v)) m) as [q|e]; [|reflexivity].
+  destruct (text_ok false (k_liquid_class k)) as [lc|]; [|reflexivity].
+  destruct (tip_mask (k_tip k)) as [mask|e]; [|reflexivity].
+  destruct (text_ok true (k_rack_id k)) as [rid|]; [|reflexivity].
+  destruct (text_ok false (k_tube_id k)) as [tid|]; [|reflexivity].
+  destruct (text_ok true (k_rack_type k)) as [rty|]; [|reflexivity].
+  destruct (text_ok true (k_forced k)) as [frt|]; [|reflexivity].
+  cbn [ad_rack_label ad_rack_id ad_rack_type ad_tube_id ad_volume ad_liquid_class ad_tip ad_forced_rack_type].
+  repeat split; try assumption. intros ->. reflexivity.
+Qed.
+
+Lemma emit_wells_sim asp L k items : forall w1 w2, wl_sim w1 w2 ->
+  (forall it, In it items -> well_index (lw_geom L) (fst it) <> None) ->
+  (is_trough (lw_geom L) = true -> T (lw_name L) = true) ->
+  wosim (emit_wells asp w1 L items k) (emit_wells asp w2 L items k).
+Proof.
+  induction items as [|[well x] rest IH]; intros w1 w2 Hw Hk Ht; [apply wosim_same; exact Hw|].
+  cbn [emit_wells]. destruct (xpos x).
+  2:{ apply IH; [exact Hw| |exact Ht]. intros it Hin. apply Hk. right. exact Hin. }
+  destruct Hw as (H1 & H2 & H3 & H4 & H5 & H6).
+  assert (Hw : wl_sim w1 w2) by (repeat split; assumption).
+  rewrite H4, H5. cbn [device_position].
+  destruct (positions_known (lw_geom L) well) as (p1 & p2 & E1 & E2 & Hp);
+    [apply (Hk (well, x)); left; reflexivity|].
+  rewrite E1, E2.
+  assert (Hstep : forall (mk : adfields -> srec) (Hmk : forall f1 f2, ad_sim T f1 f2 -> rec_sim T (mk f1) (mk f2)),
+    wosim (match (match prepare_ad (ad_of_kw (lw_name L) p1 (xq x) k) (Some (w_max w1)) with
+                  | Ok f => (emit w1 [mk f], None) | Err e => (w1, Some e) end) with
+           | (w', None) => emit_wells asp w' L rest k | (w', Some e) => (w', Some e) end)
+          (match (match prepare_ad (ad_of_kw (lw_name L) p2 (xq x) k) (Some (w_max w2)) with
+                  | Ok f => (emit w2 [mk f], None) | Err e => (w2, Some e) end) with
+           | (w', None) => emit_wells asp w' L rest k | (w', Some e) => (w', Some e) end)).
+  { intros mk Hmk. rewrite <- H1.
+    pose proof (prepare_ad_positions (lw_name L) p1 p2 (xq x) k (Some (w_max w1))) as HP.
+    destruct (prepare_ad (ad_of_kw (lw_name L) p1 (xq x) k) (Some (w_max w1))) as [f1|e1],
+             (prepare_ad (ad_of_kw (lw_name L) p2 (xq x) k) (Some (w_max w1))) as [f2|e2];
+      try contradiction.
+    - apply IH; [|intros it Hin; apply Hk; right; exact Hin|exact Ht].
+      apply emit_sim; [exact Hw|]. constructor; [|constructor].
+      destruct HP as (Hn & A1 & A2 & A3 & A4 & A5 & A6 & A7 & A8 & Heq).
+      destruct (is_trough (lw_geom L)) eqn:Etr.
+      + apply Hmk. unfold ad_sim. rewrite Hn. repeat split; try assumption; try congruence.
+        apply Ht. reflexivity.
+      + rewrite (Heq (Hp eq_refl)). apply RS_eq.
+    - subst e2. apply wosim_same. exact Hw. }
+  destruct asp.
+  - apply (Hstep RA). intros f1 f2 Hf. apply RS_A. exact Hf.
+  - apply (Hstep RD). intros f1 f2 Hf. apply RS_D. exact Hf.
+Qed.
+
+(* ------------------------------------------------------------------ states *)
+
+Lemma lsig_inv L L' : lsig L' = lsig L -> lw_name L' = lw_name L /\ lw_geom L' = lw_geom L.
+Proof. unfold lsig. intro H. injection H as H1 H2. split; assumption. Qed.
+
+Lemma ssim_set_lw s1 s2 k L L' : ssim s1 s2 -> nth_error (st_lw s1) k = Some L -> lsig L' = lsig L ->
+  ssim (set_lw s1 k L') (set_lw s2 k L').
+Proof.
+  intros (H1 & H2 & H3) Hn Hl. unfold ssim, set_lw. cbn [st_lw st_wl].
+  split; [rewrite H1; reflexivity|]. split; [|exact H3].
+  rewrite (map_upd_same lsig _ k L L' Hn Hl). exact H2.
+Qed.
+
+Lemma ssim_set_wl s1 s2 w1 w2 : ssim s1 s2 -> wl_sim w1 w2 -> ssim (set_wl s1 w1) (set_wl s2 w2).
+Proof. intros (H1 & H2 & H3) Hw. unfold ssim, set_wl. cbn [st_lw st_wl].
+  split; [exact H1|split; [exact H2|exact Hw]].
+Qed.
+
+Lemma T_cover s1 s2 k L L' : ssim s1 s2 -> nth_error (st_lw s1) k = Some L -> lsig L' = lsig L ->
+  is_trough (lw_geom L') = true -> T (lw_name L') = true.
+Proof.
+  intros (_ & H2 & _) Hn Hl Ht. apply (HT (lw_name L') (lw_geom L')); [|exact Ht].
+  change (In (lsig L') S). rewrite Hl, <- H2. apply in_map. eapply nth_error_In. exact Hn.
+Qed.
+
+Lemma aspirate_sim s1 s2 k wells vols label kw : ssim s1 s2 ->
+  osim (aspirate s1 k wells vols label kw) (aspirate s2 k wells vols label kw).
+Proof.
+  intro H. pose proof H as (Hlw & HS & Hw). unfold aspirate. rewrite <- Hlw.
+  destruct (nth_error (st_lw s1) k) as [L|] eqn:EL; [|apply osim_same; exact H].
+  destruct (wells_vols wells vols) as [ws vs].
+  pose proof (remove_lsig L (A1 ws) (A1 vs) label) as Hsig.
+  destruct (remove L (A1 ws) (A1 vs) label) as [L' [e|]] eqn:Er; cbn [fst] in Hsig.
+  - apply osim_same. eapply ssim_set_lw; eassumption.
+  - pose proof (ssim_set_lw _ _ k L L' H EL Hsig) as H1. cbv zeta.
+    change (st_wl (set_lw s1 k L')) with (st_wl s1). change (st_wl (set_lw s2 k L')) with (st_wl s2).
+    destruct (comment_sim _ _ label Hw) as [Hc He].
+    destruct (comment (st_wl s1) label) as [w1 e1], (comment (st_wl s2) label) as [w2 e2].
+    cbn [fst snd] in Hc, He. subst e2. destruct e1 as [e|].
+    + apply osim_same. apply ssim_set_wl; assumption.
+    + assert (HE : wosim (emit_wells true w1 L' (zip ws vs) kw) (emit_wells true w2 L' (zip ws vs) kw)).
+      { apply emit_wells_sim; [exact Hc| |].
+        - intros [w x] Hin. cbn [fst]. apply zip_In in Hin.
+          destruct (lsig_inv _ _ Hsig) as [_ Hg]. rewrite Hg.
+          eapply remove_known; [exact Er|]. cbn [flattenF]. apply Hin.
+        - exact (T_cover _ _ _ _ _ H EL Hsig). }
+      destruct HE as [HE1 HE2].
+      destruct (emit_wells true w1 L' (zip ws vs) kw) as [w1' e1'],
+               (emit_wells true w2 L' (zip ws vs) kw) as [w2' e2'].
+      cbn [fst snd] in HE1, HE2. subst e2'. apply osim_same. apply ssim_set_wl; assumption.
+Qed.
+
+Lemma dispense_sim s1 s2 k wells vols label comps kw : ssim s1 s2 ->
+  osim (dispense s1 k wells vols label comps kw) (dispense s2 k wells vols label comps kw).
+Proof.
+  intro H. pose proof H as (Hlw & HS & Hw). unfold dispense. rewrite <- Hlw.
+  destruct (nth_error (st_lw s1) k) as [L|] eqn:EL; [|apply osim_same; exact H].
+  destruct (wells_vols wells vols) as [ws vs].
+  pose proof (add_lsig L (A1 ws) (A1 vs) label comps) as Hsig.
+  destruct (add L (A1 ws) (A1 vs) label comps) as [L' [e|]] eqn:Er; cbn [fst] in Hsig.
+  - apply osim_same. eapply ssim_set_lw; eassumption.
+  - pose proof (ssim_set_lw _ _ k L L' H EL Hsig) as H1. cbv zeta.
+    change (st_wl (set_lw s1 k L')) with (st_wl s1). change (st_wl (set_lw s2 k L')) with (st_wl s2).
+    destruct (comment_sim _ _ label Hw) as [Hc He].
+    destruct (comment (st_wl s1) label) as [w1 e1], (comment (st_wl s2) label) as [w2 e2].
+    cbn [fst snd] in Hc, He. subst e2. destruct e1 as [e|].
+    + apply osim_same. apply ssim_set_wl; assumption.
+    + assert (HE : wosim (emit_wells false w1 L' (zip ws vs) kw) (emit_wells false w2 L' (zip ws vs) kw)).
+      { apply emit_wells_sim; [exact Hc| |].
+        - intros [w x] Hin. cbn [fst]. apply zip_In in Hin.
+          destruct (lsig_inv _ _ Hsig) as [_ Hg]. rewrite Hg.
+          eapply add_known; [exact Er|]. cbn [flattenF]. apply Hin.
+        - exact (T_cover _ _ _ _ _ H EL Hsig). }
+      destruct HE as [HE1 HE2].
+      destruct (emit_wells false w1 L' (zip ws vs) kw) as [w1' e1'],
+               (emit_wells false w2 L' (zip ws vs) kw) as [w2' e2'].
+      cbn [fst snd] in HE1, HE2. subst e2'. apply osim_same. apply ssim_set_wl; assumption.
+Qed.
+
+Lemma tip_action_sim w1 w2 ws : wl_sim w1 w2 -> ws <> SNone ->
+  wosim (tip_action w1 ws) (tip_action w2 ws).
+Proof.
+  intros H Hn. destruct ws as [z| | | |]; cbn [tip_action].
+  - apply wash_sim; exact H.
+  - apply flush_sim; exact H.
+  - apply wosim_same; exact H.
+  - congruence.
+  - apply wash_sim; exact H.
+Qed.
+
+Lemma exec_step_sim s1 s2 ks kd sw dw v ws kw : ssim s1 s2 -> ws <> SNone ->
+  osim (exec_step s1 ks kd sw dw v ws kw) (exec_step s2 ks kd sw dw v ws kw).
+Proof.
+  intros H Hn. unfold exec_step.
+  destruct (aspirate_sim s1 s2 ks (A0 sw) (A0 (XQ v)) None kw H) as [Ha He].
+  destruct (aspirate s1 ks (A0 sw) (A0 (XQ v)) None kw) as [s1a e1],
+           (aspirate s2 ks (A0 sw) (A0 (XQ v)) None kw) as [s2a e2].
+  cbn [fst snd] in Ha, He. subst e2. destruct e1 as [e|]; [apply osim_same; exact Ha|].
+  pose proof Ha as (Hlw & _ & _). rewrite <- Hlw.
+  destruct (nth_error (st_lw s1a) ks) as [Ls|]; [|apply osim_same; exact Ha].
+  destruct (get_well_composition Ls sw) as [c|e]; [|apply osim_same; exact Ha].
+  destruct (dispense_sim s1a s2a kd (A0 dw) (A0 (XQ v)) None (Some [Some c]) kw Ha) as [Hd He].
+  destruct (dispense s1a kd (A0 dw) (A0 (XQ v)) None (Some [Some c]) kw) as [s1d e1],
+           (dispense s2a kd (A0 dw) (A0 (XQ v)) None (Some [Some c]) kw) as [s2d e2].
+  cbn [fst snd] in Hd, He. subst e2. destruct e1 as [e|]; [apply osim_same; exact Hd|].
+  pose proof Hd as (_ & _ & Hw).
+  destruct (tip_action_sim _ _ ws Hw Hn) as [Ht He].
+  destruct (tip_action (st_wl s1d) ws) as [w1 e1], (tip_action (st_wl s2d) ws) as [w2 e2].
+  cbn [fst snd] in Ht, He. subst e2. apply osim_same. apply ssim_set_wl; assumption.
+Qed.
+
+Lemma exec_sim ks kd ws kw acts : ws <> SNone -> forall s1 s2, ssim s1 s2 ->
+  osim (exec s1 ks kd acts ws kw) (exec s2 ks kd acts ws kw).
+Proof.
+  intro Hn. induction acts as [|a rest IH]; intros s1 s2 H; cbn [exec]; [apply osim_same; exact H|].
+  destruct a as [sw dw v|].
+  - destruct (exec_step_sim s1 s2 ks kd sw dw v ws kw H Hn) as [Hs He].
+    destruct (exec_step s1 ks kd sw dw v ws kw) as [s1' e1], (exec_step s2 ks kd sw dw v ws kw) as [s2' e2].
+    cbn [fst snd] in Hs, He. subst e2.
+    destruct e1 as [e|]; [apply osim_same; exact Hs|apply IH; exact Hs].
+  - apply IH. pose proof H as (_ & _ & Hw). apply ssim_set_wl; [exact H|].
+    apply (proj1 (commit_sim _ _ Hw)).
+Qed.
+
+Lemma condense_at_sim s1 s2 k n label : ssim s1 s2 ->
+  ssim (condense_at s1 k n label) (condense_at s2 k n label).
+Proof.
+  intro H. pose proof H as (Hlw & _ & _). unfold condense_at. rewrite <- Hlw.
+  destruct (nth_error (st_lw s1) k) as [L|] eqn:E; [|exact H].
+  eapply ssim_set_lw; [exact H|exact E|apply condense_log_lsig].
+Qed.
+
+Lemma transfer_sim s1 s2 ks sw kd dw vols label ws pb kw : ssim s1 s2 -> ws <> SNone ->
+  osim (transfer s1 ks sw kd dw vols label ws pb kw) (transfer s2 ks sw kd dw vols label ws pb kw).
+Proof.
+  intros H Hn. pose proof H as (Hlw & HS & Hw).
+  pose proof Hw as (Hmax & Hauto & Hdi & Hd1 & Hd2 & Hrecs).
+  unfold transfer. rewrite Hd1, Hd2, <- Hlw. cbv beta iota zeta.
+  destruct (nth_error (st_lw s1) ks) as [Ls|]; [|apply osim_same; exact H].
+  destruct (nth_error (st_lw s1) kd) as [Ld|]; [|apply osim_same; exact H].
+  repeat (match goal with
+          | |- osim (if ?b then _ else _) (if ?b then _ else _) => destruct b; [apply osim_same; exact H|]
+          end).
+  match goal with
+  | |- osim (match ?x with _ => _ end) _ => destruct x as [mode|e]; [|apply osim_same; exact H]
+  end.
+  destruct (comment_sim _ _ label Hw) as [Hc He].
+  destruct (comment (st_wl s1) label) as [w1 e1], (comment (st_wl s2) label) as [w2 e2].
+  cbn [fst snd] in Hc, He. subst e2.
+  destruct e1 as [e|]; [apply osim_same; apply ssim_set_wl; assumption|].
+  pose proof Hc as (Hmax' & Hauto' & _). rewrite <- Hmax', <- Hauto'.
+  match goal with |- context [plan ?a ?m ?md ?tr] => set (acts := plan a m md tr) end.
+  destruct (exec_sim ks kd ws kw acts Hn _ _ (ssim_set_wl _ _ _ _ H Hc)) as [Hx He].
+  destruct (exec (set_wl s1 w1) ks kd acts ws kw) as [s1' e1], (exec (set_wl s2 w2) ks kd acts ws kw) as [s2' e2].
+  cbn [fst snd] in Hx, He. subst e2.
+  destruct e1 as [e|]; [apply osim_same; exact Hx|].
+  destruct (ks =? kd); apply osim_same; repeat apply condense_at_sim; exact Hx.
+Qed.
+
+(* ------------------------------------------------------------------ reagent_distribution, distribute *)
+
+Ltac wboth Hw :=
+  match goal with
+  | |- wosim (match ?x with _ => _ end) (match ?x with _ => _ end) =>
+      destruct x eqn:?; try (apply wosim_same; exact Hw)
+  end.
+
+Lemma reagent_distribution_same w1 w2 a : wl_sim w1 w2 ->
+  wosim (reagent_distribution w1 a) (reagent_distribution w2 a).
+Proof.
+  intro Hw. unfold reagent_distribution. rewrite <- (proj1 Hw). cbv zeta.
+  repeat wboth Hw. apply wosim_same. apply emit_sim_same. exact Hw.
+Qed.
+
+(** two calls that differ in the destination range and the exclusion list only *)
+Lemma reagent_distribution_sim w1 w2 a1 a2 ds1 de1 ex1 ds2 de2 ex2 :
+  wl_sim w1 w2 ->
+  rd_src_label a1 = rd_src_label a2 -> rd_src_start a1 = rd_src_start a2 -> rd_src_end a1 = rd_src_end a2 ->
+  rd_dst_label a1 = rd_dst_label a2 -> rd_volume a1 = rd_volume a2 ->
+  rd_diti_reuse a1 = rd_diti_reuse a2 -> rd_multi_disp a1 = rd_multi_disp a2 ->
+  rd_liquid_class a1 = rd_liquid_class a2 -> rd_direction a1 = rd_direction a2 ->
+  rd_src_id a1 = rd_src_id a2 -> rd_src_type a1 = rd_src_type a2 ->
+  rd_dst_id a1 = rd_dst_id a2 -> rd_dst_type a1 = rd_dst_type a2 ->
+  rd_dst_start a1 = PInt ds1 -> rd_dst_end a1 = PInt de1 -> rd_exclude a1 = Some ex1 ->
+  rd_dst_start a2 = PInt ds2 -> rd_dst_end a2 = PInt de2 -> rd_exclude a2 = Some ex2 ->
+  (0 <= ds1)%Z -> (0 <= de1)%Z -> (0 <= ds2)%Z -> (0 <= de2)%Z ->
+  (forall x, In x ex1 -> (ds1 <= x <= de1)%Z) -> (forall x, In x ex2 -> (ds2 <= x <= de2)%Z) ->
+  ((forall n, rd_dst_label a1 = PStr n -> T n = true) \/ (ds1 = ds2 /\ de1 = de2 /\ ex1 = ex2)) ->
+  wosim (reagent_distribution w1 a1) (reagent_distribution w2 a2).
+Proof.
+  intros Hw E1 E2 E3 E4 E5 E6 E7 E8 E9 E10 E11 E12 E13 S1 S2 S3 S4 S5 S6 N1 N2 N3 N4 R1 R2 HD.
+  unfold reagent_distribution.
+  rewrite <- E1, <- E2, <- E3, <- E4, <- E5, <- E6, <- E7, <- E8, <- E9, <- E10, <- E11, <- E12, <- E13.
+  rewrite S1, S2, S3, S4, S5, S6, <- (proj1 Hw).
+  rewrite !check_position_nonneg by assumption.
+  rewrite (excl_check_false _ _ _ R1), (excl_check_false _ _ _ R2). cbv zeta.
+  repeat wboth Hw.
+  apply wosim_same. apply emit_sim; [exact Hw|]. constructor; [|constructor].
+  apply RS_R. unfold r_sim.
+  cbn [r_src_label r_src_id r_src_type r_src_start r_src_end r_dst_label r_dst_id r_dst_type r_dst_start
+       r_dst_end r_volume r_liquid_class r_diti_reuse r_multi_disp r_direction r_exclude].
+  repeat (split; [reflexivity|]). split; [right; split; reflexivity|].
+  destruct HD as [HD|(-> & -> & ->)]; [left|right; repeat split].
+  apply HD. eapply text_ok_PStr. eassumption.
+Qed.
+
+Lemma distribute_sim s1 s2 ks kd dwells a : ssim s1 s2 ->
+  (forall Ld, nth_error (st_lw s1) kd = Some Ld ->
+   (exists ps, positions_of Evo (lw_geom Ld) (flattenF dwells) = Ok ps) \/
+   (exists e, positions_of Fluent (lw_geom Ld) (flattenF dwells) = Err e)) ->
+  osim (distribute s1 ks kd dwells a) (distribute s2 ks kd dwells a).
+Proof.
+  intros H Hk. pose proof H as (Hlw & HS & Hw).
+  pose proof Hw as (Hmax & Hauto & Hdi & Hd1 & Hd2 & Hrecs).
+  unfold distribute. rewrite <- Hlw. cbv zeta.
+  destruct (nth_error (st_lw s1) ks) as [Ls|] eqn:ELs; [|apply osim_same; exact H].
+  destruct (nth_error (st_lw s1) kd) as [Ld|] eqn:ELd; [|apply osim_same; exact H].
+  destruct (g_vrows (lw_geom Ls)) as [v|]; [|apply osim_same; exact H].
+  destruct (rvol_x (d_volume a)) as [xv|]; [|apply osim_same; exact H].
+  rewrite <- Hmax, Hd1, Hd2.
+  destruct (positions_of Evo (lw_geom Ld) (flattenF dwells)) as [ps1|e1] eqn:P1.
+  2:{ destruct (Hk Ld eq_refl) as [[ps P]|[e2 P2]]; [congruence|].
+      rewrite P2. rewrite (positions_of_err Evo _ _ _ ltac:(discriminate) P1).
+      rewrite (positions_of_err Fluent _ _ _ ltac:(discriminate) P2).
+      destruct xv as [q| | |]; try (apply osim_same; exact H).
+      destruct (Qgtb q (w_max (st_wl s1))); apply osim_same; exact H. }
+  destruct (positions_of_evo_ok _ _ _ P1) as (ps2 & P2 & L1 & L2 & Peq).
+  assert (Hdst : T (lw_name Ld) = true \/ ps1 = ps2).
+  { destruct (is_trough (lw_geom Ld)) eqn:Et; [left|right; apply Peq; reflexivity].
+    exact (T_cover _ _ _ _ _ H ELd eq_refl Et). }
+  rewrite P2, L1, L2.
+  destruct xv as [q| | |]; try (apply osim_same; exact H).
+  1: destruct (Qgtb q (w_max (st_wl s1))); [apply osim_same; exact H|].
+  all: destruct (sort_Z (map Z.of_nat ps1)) as [|p1 r1] eqn:Es1;
+       [destruct (sort_Z (map Z.of_nat ps2)) as [|p2 r2] eqn:Es2; [apply osim_same; exact H|];
+        exfalso; apply (f_equal (@length Z)) in Es1, Es2;
+        rewrite sort_Z_length, map_length in Es1, Es2; cbn [length] in Es1, Es2; lia|].
+  all: destruct (sort_Z (map Z.of_nat ps2)) as [|p2 r2] eqn:Es2;
+       [exfalso; apply (f_equal (@length Z)) in Es1, Es2;
+        rewrite sort_Z_length, map_length in Es1, Es2; cbn [length] in Es1, Es2; lia|].
+  all: match goal with
+       | |- osim (if ?b then _ else _) (if ?b then _ else _) => destruct b; [apply osim_same; exact H|]
+       end.
+  all: match goal with
+       | |- context [remove ?L0 ?ws ?vs ?lab] =>
+           pose proof (remove_lsig Ls ws vs lab) as Hsig;
+           destruct (remove Ls ws vs lab) as [Ls' [e|]] eqn:Er; cbn [fst] in Hsig;
+           [apply osim_same; eapply ssim_set_lw; eassumption|]
+       end.
+  all: pose proof (ssim_set_lw _ _ ks Ls Ls' H ELs Hsig) as H1.
+  all: match goal with
+       | |- osim (match ?x with _ => _ end) (match ?x with _ => _ end) =>
+           destruct x as [c|e]; [|apply osim_same; exact H1]
+       end.
+  all: pose proof H1 as (Hlw1 & _ & _); rewrite <- Hlw1.
+  all: destruct (nth_error (st_lw (set_lw s1 ks Ls')) kd) as [Ld1|] eqn:ELd1; [|apply osim_same; exact H1].
+  all: match goal with
+       | |- context [add ?L0 ?ws ?vs ?lab ?cs] =>
+           pose proof (add_lsig Ld1 ws vs lab cs) as Hsig2;
+           destruct (add Ld1 ws vs lab cs) as [Ld' [e|]] eqn:Ea; cbn [fst] in Hsig2;
+           [apply osim_same; eapply ssim_set_lw; eassumption|]
+       end.
+  all: pose proof (ssim_set_lw _ _ kd Ld1 Ld' H1 ELd1 Hsig2) as H2.
+  all: match goal with
+       | |- osim (match comment (st_wl ?A) _ with _ => _ end) (match comment (st_wl ?B) _ with _ => _ end) =>
+           set (t1 := A); set (t2 := B);
+           assert (H3 : ssim t1 t2) by (subst t1 t2; destruct (ks =? kd)%nat; [apply condense_at_sim|]; exact H2);
+           clearbody t1 t2
+       end.
+  all: pose proof H3 as (_ & _ & Hw3).
+  all: destruct (comment_sim _ _ (d_label a) Hw3) as [Hc He];
+       destruct (comment (st_wl t1) (d_label a)) as [w1 e1], (comment (st_wl t2) (d_label a)) as [w2 e2];
+       cbn [fst snd] in Hc, He; subst e2;
+       destruct e1 as [e|]; [apply osim_same; apply ssim_set_wl; assumption|].
+  all: match goal with
+       | |- osim (match reagent_distribution _ ?a1 with _ => _ end)
+                 (match reagent_distribution _ ?a2 with _ => _ end) =>
+           assert (HR : wosim (reagent_distribution w1 a1) (reagent_distribution w2 a2));
+           [|destruct HR as [HR1 HR2];
+             destruct (reagent_distribution w1 a1) as [w1' e1'], (reagent_distribution w2 a2) as [w2' e2'];
+             cbn [fst snd] in HR1, HR2; subst e2'; apply osim_same; apply ssim_set_wl; assumption]
+       end.
+  all: eapply (reagent_distribution_sim w1 w2 _ _ p1 (last (p1 :: r1) p1) (excl_of p1 (p1 :: r1))
+                                         p2 (last (p2 :: r2) p2) (excl_of p2 (p2 :: r2)));
+       try reflexivity; try exact Hc.
+  all: try (apply (sorted_positions_nonneg ps1); rewrite Es1; first [left; reflexivity | apply last_In; discriminate]).
+  all: try (apply (sorted_positions_nonneg ps2); rewrite Es2; first [left; reflexivity | apply last_In; discriminate]).
+  all: try apply excl_of_range.
+  all: destruct Hdst as [Hdst|Hdst];
+       [left; cbn [rd_dst_label]; intros n Hn; injection Hn as <-; exact Hdst
+       |right; subst ps2; rewrite Es1 in Es2; injection Es2 as <- <-; repeat split].
+Qed.
+
+(* ------------------------------------------------------------------ steps and programs *)
+
+Lemma on_wl_sim s1 s2 f : ssim s1 s2 -> (forall w1 w2, wl_sim w1 w2 -> wosim (f w1) (f w2)) ->
+  osim (on_wl s1 f) (on_wl s2 f).
+Proof.
+  intros H Hf. pose proof H as (_ & _ & Hw). unfold on_wl. destruct (Hf _ _ Hw) as [H1 H2].
+  destruct (f (st_wl s1)) as [w1 e1], (f (st_wl s2)) as [w2 e2]. cbn [fst snd] in H1, H2. subst e2.
+  apply osim_same. apply ssim_set_wl; assumption.
+Qed.
+
+Lemma on_lw_sim s1 s2 k f : ssim s1 s2 -> (forall L, lsig (fst (f L)) = lsig L) ->
+  osim (on_lw s1 k f) (on_lw s2 k f).
+Proof.
+  intros H Hf. pose proof H as (Hlw & _ & _). unfold on_lw. rewrite <- Hlw.
+  destruct (nth_error (st_lw s1) k) as [L|] eqn:E; [|apply osim_same; exact H].
+  pose proof (Hf L) as HL. destruct (f L) as [L' e]. cbn [fst] in HL.
+  apply osim_same. eapply ssim_set_lw; eassumption.
+Qed.
+
+Lemma step_sim s1 s2 o : ssim s1 s2 -> dev_indep o -> dist_ids_agree (st_lw s1) o ->
+  osim (step s1 o) (step s2 o).
+Proof.
+  intros H Hi Hk. destruct o; cbn [step]; cbn [dev_indep dist_ids_agree] in Hi, Hk; try contradiction.
+  - apply on_lw_sim; [exact H|]. intro L. apply add_lsig.
+  - apply on_lw_sim; [exact H|]. intro L. apply remove_lsig.
+  - apply on_lw_sim; [exact H|]. intro L. apply condense_log_lsig.
+  - apply aspirate_sim. exact H.
+  - apply dispense_sim. exact H.
+  - apply transfer_sim; assumption.
+  - apply distribute_sim; assumption.
+  - apply on_wl_sim; [exact H|]. intros w1 w2 Hw. apply comment_sim. exact Hw.
+  - apply on_wl_sim; [exact H|]. intros w1 w2 Hw. apply wash_sim. exact Hw.
+  - apply on_wl_sim; [exact H|]. exact decontaminate_sim.
+  - apply on_wl_sim; [exact H|]. exact flush_sim.
+  - apply on_wl_sim; [exact H|]. exact commit_sim.
+  - apply on_wl_sim; [exact H|]. intros w1 w2 Hw. apply set_diti_sim. exact Hw.
+  - apply on_wl_sim; [exact H|]. intros w1 w2 Hw. apply aspirate_well_sim. exact Hw.
+  - apply on_wl_sim; [exact H|]. intros w1 w2 Hw. apply dispense_well_sim. exact Hw.
+  - apply on_wl_sim; [exact H|]. intros w1 w2 Hw. apply reagent_distribution_same. exact Hw.
+Qed.
+
+(** [dist_ids_agree] only looks at the geometries *)
+Lemma dist_ids_agree_sig l l' o : map lsig l = map lsig l' -> dist_ids_agree l o -> dist_ids_agree l' o.
+Proof.
+  intros Hs Hk. destruct o; cbn [dist_ids_agree] in *; try exact I.
+  intros Ld' Hn.
+  pose proof (nth_error_map lsig kd l) as M1. pose proof (nth_error_map lsig kd l') as M2.
+  rewrite Hs, M2, Hn in M1. cbn [option_map] in M1.
+  destruct (nth_error l kd) as [Ld|] eqn:E; cbn [option_map] in M1; [|discriminate].
+  injection M1 as Mn Mg. rewrite Mg. apply (Hk Ld eq_refl).
+Qed.
+
+Lemma run_sim ops : forall s1 s2, ssim s1 s2 -> Forall dev_indep ops ->
+  Forall (dist_ids_agree (st_lw s1)) ops ->
+  ssim (fst (run s1 ops)) (fst (run s2 ops)) /\ snd (run s1 ops) = snd (run s2 ops).
+Proof.
+  induction ops as [|o r IH]; intros s1 s2 H Hi Hk; cbn [run]; [split; [exact H|reflexivity]|].
+  inversion Hi as [|o' r' Hi1 Hi2]; subst. inversion Hk as [|o' r' Hk1 Hk2]; subst.
+  destruct (step_sim s1 s2 o H Hi1 Hk1) as [Hs He].
+  destruct (step s1 o) as [s1' e1], (step s2 o) as [s2' e2]. cbn [fst snd] in Hs, He. subst e2.
+  assert (Hk' : Forall (dist_ids_agree (st_lw s1')) r).
+  { pose proof H as (_ & HS1 & _). pose proof Hs as (_ & HS2 & _).
+    eapply Forall_impl; [|exact Hk2]. intros o' Ho'. eapply dist_ids_agree_sig; [|exact Ho'].
+    rewrite HS1, HS2. reflexivity. }
+  destruct (IH s1' s2' Hs Hi2 Hk') as [Hr He].
+  destruct (run s1' r) as [s1'' es1], (run s2' r) as [s2'' es2]. cbn [fst snd] in *.
+  split; [exact Hr|congruence].
+Qed.
+
+End Sim.
+
+(* ================================================================== the statements of C16 *)
+
+Lemma troughs_of_cover lws n g : In (n, g) (map lsig lws) -> is_trough g = true -> troughs_of lws n = true.
+Proof.
+  intros Hin Ht. apply in_map_iff in Hin. destruct Hin as (L & HL & Hin).
+  unfold lsig in HL. injection HL as <- <-.
+  unfold troughs_of. apply existsb_exists. exists L. split; [exact Hin|].
+  rewrite String.eqb_refl, Ht. reflexivity.
+Qed.
+
+Lemma troughs_of_sig l : forall l' n, map lsig l = map lsig l' -> troughs_of l n = troughs_of l' n.
+Proof.
+  induction l as [|L r IH]; intros [|L' r'] n H; cbn [map] in H; try discriminate; [reflexivity|].
+  injection H as Hn Hg H2.
+  unfold troughs_of. cbn [existsb]. fold (troughs_of r n). fold (troughs_of r' n).
+  rewrite (IH r' n H2), Hn, Hg. reflexivity.
+Qed.
+
+(** with distinct names, [troughs_of] says whether THE labware of that name is a trough *)
+Lemma troughs_of_spec lws L : NoDup (map lw_name lws) -> In L lws ->
+  troughs_of lws (lw_name L) = is_trough (lw_geom L).
+Proof.
+  induction lws as [|L0 r IH]; intros Hnd Hin; [contradiction|].
+  cbn [map] in Hnd. inversion Hnd as [|x l Hx Hr]; subst.
+  unfold troughs_of. cbn [existsb]. fold (troughs_of r (lw_name L)).
+  destruct Hin as [->|Hin].
+  - rewrite String.eqb_refl. cbn [andb].
+    destruct (troughs_of r (lw_name L)) eqn:E; [|apply orb_false_r].
+    exfalso. apply Hx. unfold troughs_of in E. apply existsb_exists in E.
+    destruct E as (L1 & Hin1 & Hb). apply andb_true_iff in Hb. destruct Hb as [Hb _].
+    apply String.eqb_eq in Hb. rewrite <- Hb. apply in_map. exact Hin1.
+  - destruct (String.eqb (lw_name L0) (lw_name L)) eqn:E.
+    + exfalso. apply Hx. apply String.eqb_eq in E. rewrite E. apply in_map. exact Hin.
+    + cbn [andb orb]. apply IH; assumption.
+Qed.
+
+Lemma dist_ids_known_agree lws o : dist_ids_known lws o -> dist_ids_agree lws o.
+Proof.
+  destruct o; cbn [dist_ids_known dist_ids_agree]; try (intro; exact I).
+  intros Hk Ld HLd. left.
+  destruct (positions_of_known (lw_geom Ld) (flattenF dwells) (Hk Ld HLd)) as (ps1 & _ & P1 & _).
+  exists ps1. exact P1.
+Qed.
+
+Lemma state_sim_ssim s1 s2 : state_sim s1 s2 ->
+  ssim (troughs_of (st_lw s1)) (map lsig (st_lw s1)) s1 s2.
+Proof.
+  intros (H1 & H2 & H3 & H4 & H5 & H6 & H7). unfold ssim, wl_sim. repeat split; assumption.
+Qed.
+
+Lemma ssim_state_sim lws s1 s2 : ssim (troughs_of lws) (map lsig lws) s1 s2 -> state_sim s1 s2.
+Proof.
+  intros (H1 & HS & (H2 & H3 & H4 & H5 & H6 & H7)). unfold state_sim. repeat split; try assumption.
+  eapply Forall2_mono; [|exact H7]. intros r1 r2 Hr. eapply rec_sim_mono; [|exact Hr].
+  intros n Hn. rewrite <- Hn. apply troughs_of_sig. exact HS.
+Qed.
+
+Lemma step_state_sim s1 s2 o : state_sim s1 s2 -> dev_indep o -> dist_ids_agree (st_lw s1) o ->
+  let '(s1', e1) := step s1 o in let '(s2', e2) := step s2 o in
+  state_sim s1' s2' /\ e1 = e2 /\ map lsig (st_lw s1') = map lsig (st_lw s1).
+Proof.
+  intros H Hi Hk.
+  destruct (step_sim _ _ (troughs_of_cover (st_lw s1)) s1 s2 o (state_sim_ssim _ _ H) Hi Hk) as [Hs He].
+  destruct (step s1 o) as [s1' e1], (step s2 o) as [s2' e2]. cbn [fst snd] in Hs, He.
+  split; [eapply ssim_state_sim; exact Hs|]. split; [exact He|]. apply Hs.
+Qed.
+
+Lemma run_state_sim ops s1 s2 : state_sim s1 s2 -> Forall dev_indep ops ->
+  Forall (dist_ids_agree (st_lw s1)) ops ->
+  let '(s1', es1) := run s1 ops in let '(s2', es2) := run s2 ops in
+  state_sim s1' s2' /\ es1 = es2 /\ map lsig (st_lw s1') = map lsig (st_lw s1).
+Proof.
+  intros H Hi Hk.
+  destruct (run_sim _ _ (troughs_of_cover (st_lw s1)) ops s1 s2 (state_sim_ssim _ _ H) Hi Hk) as [Hs He].
+  destruct (run s1 ops) as [s1' es1], (run s2 ops) as [s2' es2]. cbn [fst snd] in Hs, He.
+  split; [eapply ssim_state_sim; exact Hs|]. split; [exact He|]. apply Hs.
+Qed.
+
+Lemma init_state_sim lws m a d :
+  state_sim {| st_lw := lws; st_wl := init_wl Evo m a d |} {| st_lw := lws; st_wl := init_wl Fluent m a d |}.
+Proof. unfold state_sim, init_wl. cbn. repeat split. constructor. Qed.
+
+Lemma no_trough_false lws : (forall L, In L lws -> is_trough (lw_geom L) = false) ->
+  forall n, troughs_of lws n = false.
+Proof.
+  intros H n. unfold troughs_of. destruct (existsb _ lws) eqn:E; [|reflexivity].
+  apply existsb_exists in E. destruct E as (L & Hin & Hb). rewrite (H L Hin), andb_false_r in Hb. discriminate.
+Qed.
+
+Lemma no_trough_identical s1 s2 : state_sim s1 s2 ->
+  (forall L, In L (st_lw s1) -> is_trough (lw_geom L) = false) ->
+  w_recs (st_wl s1) = w_recs (st_wl s2).
+Proof.
+  intros (_ & _ & _ & _ & _ & _ & H) Hn. apply Forall2_eq.
+  eapply Forall2_mono; [|exact H]. intros r1 r2 Hr.
+  eapply rec_sim_no_trough; [|exact Hr]. apply no_trough_false. exact Hn.
+Qed.
+
+Lemma no_trough_sig l l' : map lsig l = map lsig l' ->
+  (forall L, In L l -> is_trough (lw_geom L) = false) -> forall L, In L l' -> is_trough (lw_geom L) = false.
+Proof.
+  intros Hs H L' Hin. apply (in_map lsig) in Hin. rewrite <- Hs in Hin.
+  apply in_map_iff in Hin. destruct Hin as (L & HL & Hin). destruct (lsig_inv _ _ (eq_sym HL)) as [_ Hg].
+  rewrite Hg. apply H. exact Hin.
+Qed.
+
+Lemma run_no_trough_identical ops s1 s2 : state_sim s1 s2 -> Forall dev_indep ops ->
+  Forall (dist_ids_agree (st_lw s1)) ops ->
+  (forall L, In L (st_lw s1) -> is_trough (lw_geom L) = false) ->
+  w_recs (st_wl (fst (run s1 ops))) = w_recs (st_wl (fst (run s2 ops))) /\
+  st_lw (fst (run s1 ops)) = st_lw (fst (run s2 ops)) /\
+  snd (run s1 ops) = snd (run s2 ops).
+Proof.
+  intros H Hi Hk Hn. pose proof (run_state_sim ops s1 s2 H Hi Hk) as HR.
+  destruct (run s1 ops) as [s1' es1], (run s2 ops) as [s2' es2]. cbn [fst snd].
+  destruct HR as (Hs & He & Hsig). split; [|split; [apply Hs|exact He]].
+  apply no_trough_identical; [exact Hs|]. eapply no_trough_sig; [symmetry; exact Hsig|exact Hn].
+Qed.
+
+(** from the two empty worklists: equal labware, equal outcomes, records related w.r.t. the troughs of
+    the initial labware list *)
+Lemma run_init_sim lws m a d ops : Forall dev_indep ops -> Forall (dist_ids_known lws) ops ->
+  let r1 := run {| st_lw := lws; st_wl := init_wl Evo m a d |} ops in
+  let r2 := run {| st_lw := lws; st_wl := init_wl Fluent m a d |} ops in
+  st_lw (fst r1) = st_lw (fst r2) /\ snd r1 = snd r2 /\
+  Forall2 (rec_sim (troughs_of lws)) (w_recs (st_wl (fst r1))) (w_recs (st_wl (fst r2))).
+Proof.
+  intros Hi Hk. cbv zeta.
+  assert (Hk' : Forall (dist_ids_agree lws) ops)
+    by (eapply Forall_impl; [|exact Hk]; intros o Ho; apply dist_ids_known_agree; exact Ho).
+  pose proof (run_state_sim ops _ _ (init_state_sim lws m a d) Hi Hk') as HR.
+  destruct (run {| st_lw := lws; st_wl := init_wl Evo m a d |} ops) as [s1' es1],
+           (run {| st_lw := lws; st_wl := init_wl Fluent m a d |} ops) as [s2' es2].
+  cbn [fst snd st_lw] in *. destruct HR as (Hs & He & Hsig).
+  destruct Hs as (H1 & _ & _ & _ & _ & _ & H7). split; [exact H1|]. split; [exact He|].
+  eapply Forall2_mono; [|exact H7]. intros r1 r2 Hr. eapply rec_sim_mono; [|exact Hr].
+  intros n Hn. rewrite <- Hn. symmetry. apply troughs_of_sig. exact Hsig.
+Qed.
+
+(* ================================================================== concrete objects for the examples *)
+
+#[local] Open Scope string_scope.
+
+(** a trough with 4 virtual rows and 2 columns; a 2 x 3 plate *)
+Definition ex16_trough : labware :=
+  {| lw_name := "trough"; lw_geom := {| g_rows := 1; g_cols := 2; g_vrows := Some 4 |};
+     lw_min := 1000; lw_max := 30000; lw_vols := [20000; 5000]%Q;
+     lw_comp := [("water", [1; 0]%Q); ("buffer", [0; 1]%Q)];
+     lw_hist := [(Some "initial", [20000; 5000]%Q)] |}.
+Definition ex16_plate : labware :=
+  {| lw_name := "plate"; lw_geom := {| g_rows := 2; g_cols := 3; g_vrows := None |};
+     lw_min := 10; lw_max := 300; lw_vols := [50; 50; 50; 50; 50; 50]%Q; lw_comp := [];
+     lw_hist := [(Some "initial", [50; 50; 50; 50; 50; 50]%Q)] |}.
+Definition ex16_state (d : device) : state :=
+  {| st_lw := [ex16_trough; ex16_plate]; st_wl := init_wl d 100 true false |}.
+Definition ex16_dist (v : Z) : distargs :=
+  {| d_source_column := 1; d_volume := RVInt v; d_diti_reuse := 1; d_multi_disp := 1;
+     d_liquid_class := PStr "W"; d_label := Some "dist"; d_direction := "left_to_right";
+     d_src_id := PStr ""; d_src_type := PStr ""; d_dst_id := PStr ""; d_dst_type := PStr "" |}.
+(** a transfer out of the trough with a volume that is split, a distribute, an aspirate above the
+    worklist's max_volume (rejected after the removal and the comment), an aspirate whose second well
+    would fall below min_volume (rejected after the first well has been removed) *)
+Definition ex16_prog : list op :=
+  [OTransfer 0 (A1 ["A01"; "C01"]) 1 (A1 ["A01"; "B01"]) (A1 [150; 30]%Q) (Some "t") (SInt 1) "auto" kw_default;
+   ODistribute 0 1 (A1 ["A02"; "B03"]) (ex16_dist 20);
+   OAspirate 0 (A1 ["A02"; "D02"]) (A1 [XQ 1000; XQ 2500]) (Some "too much") kw_default;
+   OAspirate 0 (A1 ["A02"; "D02"]) (A1 [XQ 60; XQ 500]) (Some "too low") kw_default].
+
+Lemma ex16_wf d : wf_state (ex16_state d).
+Proof.
+  constructor; [|constructor; [|constructor]];
+    unfold wf_labware, wf_shape, wf_geom, vol_inv, ex16_trough, ex16_plate, n_wells;
+    cbn [lw_geom lw_vols lw_comp lw_hist lw_min lw_max g_rows g_cols g_vrows length snd];
+    repeat split; try lia; try (apply Qlt_alt; reflexivity); try (apply Qle_bool_iff; reflexivity);
+    try discriminate; repeat constructor; try (apply Qle_bool_iff; reflexivity).
+Qed.
+
+Lemma ex16_hyps :
+  state_sim (ex16_state Evo) (ex16_state Fluent) /\
+  Forall dev_indep ex16_prog /\
+  Forall (dist_ids_known (st_lw (ex16_state Evo))) ex16_prog /\
+  wf_state (ex16_state Evo) /\ NoDup (map lw_name (st_lw (ex16_state Evo))).
+Proof.
+  split; [apply init_state_sim|]. split; [|split; [|split; [apply ex16_wf|]]].
+  - repeat constructor. discriminate.
+  - repeat constructor. intros Ld HLd w Hw. cbn in HLd. injection HLd as <-.
+    destruct Hw as [<-|[<-|[]]]; vm_compute; discriminate.
+  - cbn. repeat constructor; cbn; intuition discriminate.
+Qed.
+
+(** a destination id that is no id of the destination labware: the EVO numbering refuses it before any
+    effect, the Fluent numbering accepts it (first character only) and the call fails later, after the
+    source volume has been removed (first example) or with another error class (second example) *)
+Lemma distribute_unknown_id_refuted :
+  exists s1 s2 o o', state_sim s1 s2 /\ wf_state s1 /\ dev_indep o /\ dev_indep o' /\
+    snd (step s1 o) = Some EReject /\ snd (step s2 o) = Some EReject /\
+    fst (step s1 o) = s1 /\
+    map lw_vols (st_lw (fst (step s2 o))) <> map lw_vols (st_lw s2) /\
+    snd (step s1 o') = Some EReject /\ snd (step s2 o') = Some EUnderflow.
+Proof.
+  exists (ex16_state Evo), (ex16_state Fluent),
+         (ODistribute 0 1 (A1 ["AB01"]) (ex16_dist 20)),
+         (ODistribute 0 1 (A1 ("AB01" :: repeat "A01" 45)) (ex16_dist 90)).
+  split; [apply init_state_sim|]. split; [apply ex16_wf|]. split; [exact I|]. split; [exact I|].
+  repeat split; try (vm_compute; reflexivity). vm_compute. discriminate.
 Qed.
